@@ -34,6 +34,7 @@ type c01Node struct {
 	state    string // running | left | crashed | never
 	joined   bool   // the running instance has joined somebody (or was joined)
 	gen      int
+	silent   bool // restarted on its old address without joining anybody: the survivors have to find it
 }
 
 func TestC01(t *testing.T) {
@@ -53,7 +54,7 @@ func TestC01(t *testing.T) {
 		var problems []string // per-view disagreements at the deadline (or at a relapse)
 		var probKeys []string
 		converged := time.Duration(-1)
-		faults, changes, leavesSkipped, leaves, relapses, uninformed, joinsDuringLeave, prefixSettled := 0, 0, 0, 0, 0, 0, 0, 0
+		faults, changes, leavesSkipped, leaves, relapses, uninformed, joinsDuringLeave, prefixSettled, silentRestarts, silentAtTheEnd := 0, 0, 0, 0, 0, 0, 0, 0, 0, 0
 
 		synctest.Test(t, func(t *testing.T) {
 			nw := simnet.New(int64(ci))
@@ -284,10 +285,30 @@ func TestC01(t *testing.T) {
 					x.state = "crashed"
 					changes++
 				case k < 45 && x.state == "crashed":
+					// a third of the restarts come back on the old address without joining anybody (no
+					// retry-join configured): whoever still lists the node as failed keeps redialling it
+					// (serf's reconnect loop), which is what brings it back
+					knownFailed := false
+					for _, v := range run {
+						if st, ok := v.nd.MemberMap()[x.name]; ok && st == serf.StatusFailed {
+							knownFailed = true
+						}
+					}
+					if knownFailed && !cutActive && !lossActive && rng.Intn(3) == 0 {
+						log("restart %s without joining anybody", x.name)
+						if !start(x) {
+							return
+						}
+						x.silent = true
+						silentRestarts++
+						changes++
+						break
+					}
 					log("restart %s", x.name)
 					if !start(x) {
 						return
 					}
+					x.silent = false
 					tryJoin(x)
 					changes++
 				case k < 55 && len(run) >= 2:
@@ -342,11 +363,32 @@ func TestC01(t *testing.T) {
 			// like an agent with retry-join they (re)join one seed after the heal; original instances must
 			// find each other again through serf's own reconnect loop
 			if run := running(); len(run) > 0 {
-				seed := run[0]
-				for _, x := range run[1:] {
-					if x.gen > 1 || seed.gen > 1 || !x.joined {
-						if _, err := x.nd.S.Join([]string{seed.nd.Addr}, false); err == nil {
-							x.joined = true
+				// a silent restart stays silent as long as some other running instance still lists the node
+				// (it will be redialled); otherwise it behaves like any other restarted instance
+				var loud []*c01Node
+				for _, x := range run {
+					if x.silent {
+						known := false
+						for _, v := range run {
+							if _, ok := v.nd.MemberMap()[x.name]; ok && v != x && !v.silent {
+								known = true
+							}
+						}
+						if known {
+							silentAtTheEnd++
+							continue
+						}
+						x.silent = false
+					}
+					loud = append(loud, x)
+				}
+				if len(loud) > 0 {
+					seed := loud[0]
+					for _, x := range loud[1:] {
+						if x.gen > 1 || seed.gen > 1 || !x.joined {
+							if _, err := x.nd.S.Join([]string{seed.nd.Addr}, false); err == nil {
+								x.joined = true
+							}
 						}
 					}
 				}
@@ -394,6 +436,8 @@ func TestC01(t *testing.T) {
 		r.Count("graceful_leaves", leaves)
 		r.Count("graceful_leaves_skipped_views_not_converged", leavesSkipped)
 		r.Count("restarts_joining_during_a_graceful_leave", joinsDuringLeave)
+		r.Count("restarts_without_joining_anybody", silentRestarts)
+		r.Count("restarted_nodes_left_to_the_survivors_reconnect_loop_at_the_end", silentAtTheEnd)
 		r.Count("scripts_opening_with_a_restart_during_a_leave_settled", prefixSettled)
 		r.Count("transient_relapses_before_stability", relapses)
 		if uninformed > 0 {
